@@ -88,6 +88,7 @@ class Algebra:
         self.intern = intern
         self.rows = {}         # vid -> info tuple
         self.spans = {}        # (vid, c, r) -> vid
+        self.joins = {}        # tuple of contributing content ids (row-major) -> content id of the merged first cell
 
     def close(self):
         """rows for every interned id, until no edit creates a new one"""
@@ -111,7 +112,8 @@ class Algebra:
         rows = ['(%d,(%s,%s,%s,%s,%s,%s,%s,%d,%d,%d,%d))' % ((v, b(i[0]), b(i[1]), o(i[2]), o(i[3]), b(i[4]), b(i[5]), b(i[6])) + tuple(i[7:]))
                 for v, i in sorted(self.rows.items())]
         spans = ['(%d,(%d),(%d),%d)' % (v, c, r, w) for (v, c, r), w in sorted(self.spans.items())]
-        return '[%s]' % ';'.join(rows), '[%s]' % ';'.join(spans)
+        joins = ['([%s],%d)' % (';'.join('(%d)' % v for v in k), w) for k, w in sorted(self.joins.items())]
+        return '[%s]' % ';'.join(rows), '[%s]' % ';'.join(spans), '[%s]' % ';'.join(joins)
 
 
 # ------------------------------------------------------------------ expansion of the raw abstraction (harness side only)
@@ -158,6 +160,30 @@ class XDriver(tl.Driver):
         elif k == 'row_values': timed(t.get_row_values, q[1])
         else: raise KeyError(k)
 
+    def merge_join(self, pre_nodes, x, y, z, t):
+        """merge=True: the contents whose values are collected (read off the abstraction of the state before the call:
+        row by row, left to right; not empty in the aggressive sense, value not None and not ""), their Python values
+        (Cell.get_value on a detached cell, trusted codec), the value-level join rule of set_span re-stated here, and the
+        content id of Cell(joined).  The ORDER and the SELECTION are recomputed by the Coq model (Transform.join_ids):
+        this table only answers "which content is Cell(join of these values)"."""
+        self.alg.close()
+        _, rows = expand_nodes(pre_nodes)
+        ids = []
+        for j in range(y, t + 1):
+            for i in range(x, z + 1):
+                v, s = cell_of(rows, i, j)
+                info = self.alg.rows[v]
+                empty_aggr = not info[4] and not info[0] and not info[1]
+                if not empty_aggr and info[5] and info[6]:
+                    ids.append(v)
+        if not ids or tuple(ids) in self.alg.joins:
+            return
+        vals = [self.odfdo.Element.from_tag(self.intern.val_xml[v]).get_value() for v in ids]
+        joined = vals[0] if len(vals) == 1 else ' '.join(str(v) for v in vals if v)
+        _, vid, _ = self.a_cell(self.odfdo.Cell(joined))
+        self.alg.joins[tuple(ids)] = vid
+        self.alg.want_span([vid], z - x + 1, t - y + 1)
+
     def apply_x(self, op, pre_nodes):
         """returns (abstract op, raised, ret)"""
         t, k = self.table, op[0]
@@ -175,23 +201,12 @@ class XDriver(tl.Driver):
             elif k == 'set_span':
                 x, y, z, tt, merge = op[1:6]
                 self.alg.want_span(ids, z - x + 1, tt - y + 1)
-                a = None
                 form = op[6] if len(op) > 6 else 'tuple'
                 area = (x, y, z, tt) if form == 'tuple' else '%s:%s' % (a1(x, y), a1(z, tt))
-                try:
-                    ret = bool(timed(t.set_span, area, merge=bool(merge)))
-                finally:
-                    mid = 0
-                    if merge:
-                        # content id of the first cell after the call, without its span attributes (see Transform.merge_cells)
-                        try:
-                            _, rows = expand_nodes(self.abs())
-                            self.alg.close()
-                            mid = self.alg.rows[cell_of(rows, x, y)[0]][10]
-                            self.alg.want_span([mid], z - x + 1, tt - y + 1)
-                        except Exception:
-                            mid = 0
-                    a = (k, x, y, z, tt, bool(merge), mid)
+                if merge:
+                    self.merge_join(pre_nodes, x, y, z, tt)
+                a = (k, x, y, z, tt, bool(merge), 0)
+                ret = bool(timed(t.set_span, area, merge=bool(merge)))
             elif k == 'del_span':
                 a = (k, op[1], op[2])
                 form = op[3] if len(op) > 3 else 'tuple'
@@ -231,7 +246,7 @@ def c_xop(a):
 
 HEADER = ('Require Import Vault Row Table Grid Tableabs Tablexml Tablechk Transform Transformspec Transformchk.\n'
           'From Coq Require Import List ZArith NArith Bool Arith. Import ListNotations. Open Scope Z_scope.\n'
-          'Definition mkx (ct : list (Z * cinfo)) (st : list (Z * Z * Z * Z)) (vt : list (Z * Z)) (init : xtable) (l : list xobs) : xcase := (ct, st, vt, init, l).\n')
+          'Definition mkx (ct : list (Z * cinfo)) (st : list (Z * Z * Z * Z)) (jt : list (list Z * Z)) (vt : list (Z * Z)) (init : xtable) (l : list xobs) : xcase := (ct, st, jt, vt, init, l).\n')
 
 
 def run_case(odfdo, case):
@@ -284,8 +299,8 @@ def run_case_once(odfdo, case):
         pre = post
         if raised:
             break
-    ct, stab = d.alg.coq()
-    term = '(mkx %s\n %s\n [%s] %s\n [%s])' % (ct, stab, ';'.join('(%d,%d)' % p for p in d.vtab()), tl.c_xtable(d.init_nodes), ';\n '.join(terms))
+    ct, stab, jtab = d.alg.coq()
+    term = '(mkx %s\n %s\n %s\n [%s] %s\n [%s])' % (ct, stab, jtab, ';'.join('(%d,%d)' % p for p in d.vtab()), tl.c_xtable(d.init_nodes), ';\n '.join(terms))
     return dict(term=term, error=None, records=recs, init=d.init_nodes, alg_rows=dict(d.alg.rows))
 
 
